@@ -7,7 +7,7 @@ import numpy as np
 from . import core, tlc
 from .session import _flatten
 
-MAGNITUDES = (20, 40, 70, 110, 240, 480, 900)
+MAGNITUDES = (10, 20, 40, 60, 110, 240, 480)
 MARGIN = 40
 
 
